@@ -3,7 +3,16 @@ import Model.U128
 import Model.I128
 /-! Driver of C01.  Line protocol: `u <op> <args…>` / `i <op> <args…>`; a 128-bit operand is `hi:lo` (hex), a 64-bit
     operand is `x<hex>` (for `int64` operands: the two's-complement bit pattern), counts and bit indexes are decimal.
-    Outputs: `hi:lo`, `x<hex>`, decimal integers, `true`/`false`, `panic`. -/
+    Outputs: `hi:lo`, `x<hex>`, decimal integers, `true`/`false`, `panic:divzero`.
+
+    Which panic.  `Res.panic` of the model is the library's own explicit panic `panic(divByZero)` (the string
+    "divide by zero"): as the code stands, all twelve division entry points raise exactly that one for a zero divisor —
+    `Uint128.Div/Div64/DivMod/DivMod64/Mod/Mod64` test the divisor first and call `panic(divByZero)`, and the six `Int128`
+    entry points reach one of those with the magnitude of the divisor (`Div -> Uint128.Div`, `Div64 -> Uint128.Div64`,
+    `DivMod -> Uint128.DivMod`, `DivMod64 -> DivMod`, `Mod -> DivMod`, `Mod64 -> DivMod64`).  No entry point lets the
+    runtime's own integer-divide panic through (the only machine divisions, by `n.lo`, `n` and `vn1`, are behind the
+    zero test resp. the normalisation).  The driver therefore prints the class `panic:divzero`; the harness prints the
+    class of the value it recovered (`panic:divzero`, `panic:runtime-divide`, `panic:runtime`, `panic:other`). -/
 open Proto
 
 inductive Arg where
@@ -27,7 +36,7 @@ def fI (i : I128) : String := natToHex i.hi.toNat ++ ":" ++ natToHex i.lo.toNat
 def fB (b : Bool) : String := if b then "true" else "false"
 def fRes {α : Type} (f : α → String) : U128.Res α → String
   | .ok v => f v
-  | .panic => "panic"
+  | .panic => "panic:divzero"
 def fUU (p : U128 × U128) : String := fU p.1 ++ " " ++ fU p.2
 def fII (p : I128 × I128) : String := fI p.1 ++ " " ++ fI p.2
 
